@@ -137,6 +137,10 @@ def gen_source(rng, hazardous=True) -> Src:
         s.files["sub/chainB"] = "// comment in chainB\nfromB  2;\nnb\n{\n    // nested comment in chainB\n    q  3;\n}\n/* block in chainB */\n"
         s.chain = True
         s.nontrivial = True
+    if s.own_header and len(s.lines) > 1 and rng.random() < 0.3:
+        # include directives in front of the file's own header block
+        s.lines.append(s.lines.pop(0))
+        s.nontrivial = True
     body(0, 0)
     return s
 
